@@ -35,11 +35,18 @@ RULE = (
     "sent through the real send path (a sender XKNX with current_address = the sender, CEMIHandler.send_telegram, recording "
     "interface stub that confirms with L_Data.con; telegram once with the default 0.0.0 source and once with an explicit source; "
     "always A+C, the only algorithm the send path selects) and the recorded frame is given to a fresh receiver; and it is "
+    "(send histories: one sender, one receiver, 2..4 telegrams to two secured groups through send_telegram with an interface that "
+    "per send delivers and returns / delivers and then raises CommunicationError / raises without delivering, and an L_Data.con that "
+    "may be lost - all fault sequences of length 2..3 enumerated, longer ones generated: every secured frame that reached the receiver "
+    "must be delivered, wire sequence numbers strictly increase) and it is "
     "replayed as a short history on ONE receiver: two bit-damaged copies and a copy forged with another key under a higher sequence "
     "number first (all must be discarded), then the intact frame (must be delivered once, unchanged). Every case is non-trivial "
     "(distinct by input); frames whose secured NPDU exceeds 254 octets are outside the domain."
 )
 ASSUMPTIONS = [
+    "send histories: xknx.cemi.cemi_handler.REQUEST_TO_CONFIRMATION_TIMEOUT is lowered to 2 ms while a history runs (restored afterwards) so that "
+    "a lost L_Data.con does not cost 3 s of wall clock; an exception out of the interface's send_cemi does not imply the frame stayed off the bus "
+    "(a tunnel raises CommunicationError after unacknowledged retries although the gateway may have forwarded the frame)",
     "sender side = xknx.secure.data_secure.DataSecure (outgoing_cemi; _secure_data_cemi with an authentication-only SCF, as no public "
     "API selects that algorithm); receiver side = a separate XKNX() whose cemi_handler.data_secure holds the key and the sender",
     "delivery is observed at xknx.telegrams (T_Data_Group) and at the management entry point xknx.management.process (T_Data_Tag_Group, "
@@ -335,6 +342,178 @@ def history_after_damaged_copies(ctx, spec, raw: bytes, plain, apdu: bytes) -> N
         ctx.fail(f"C15:payload-differs-after-damaged-copy:{type(plain.payload).__name__}", spec, f"sent {plain.payload} received {tg.payload} data_secure={tg.data_secure}")
 
 
+# ---------------------------------------------------------------------------
+# send histories with interface faults
+
+FAULTS = ("ok", "deliver-then-raise", "raise-no-deliver")
+
+
+class FaultyInterface:
+    """Interface stub between a sender and a receiver XKNX. Per send: hands the frame to the receiver (as L_Data.ind)
+    or not, raises CommunicationError afterwards or not (a tunnel whose TUNNELLING_ACKs are lost raises although the
+    frame reached the bus), confirms with L_Data.con or not."""
+
+    def __init__(self, sender, receiver, rec) -> None:
+        self.sender, self.receiver, self.rec = sender, receiver, rec
+        self.plan: dict = {}
+        self.log: list = []  # per send: {"wire", "reached", "delivered", "rx_exc"}
+
+    async def send_cemi(self, cemi) -> None:
+        from xknx.exceptions import CommunicationError
+
+        wire = cemi.to_knx()
+        entry = {"wire": wire, "reached": False, "delivered": [], "rx_exc": None}
+        self.log.append(entry)
+        fault = self.plan["fault"]
+        if fault in ("ok", "deliver-then-raise"):
+            entry["reached"] = True
+            try:
+                self.receiver.cemi_handler.handle_raw_cemi(bytes([L.L_DATA_IND]) + wire[1:])
+            except Exception as e:  # noqa: BLE001
+                entry["rx_exc"] = e
+            entry["delivered"] = delivered(self.receiver, self.rec)
+            del self.rec.telegrams[:]
+        if fault != "ok":
+            raise CommunicationError("simulated: no acknowledge from the gateway")
+        if self.plan["confirm"]:
+            self.sender.cemi_handler.handle_raw_cemi(bytes([CEMIMessageCode.L_DATA_CON.value]) + wire[1:])
+
+
+def oracle_send_history(ctx, hist) -> None:
+    """2..4 telegrams to secured groups through CEMIHandler.send_telegram of ONE sender, a faulty interface and ONE
+    receiver. Every secured frame that reached the receiver must be delivered there unchanged; the sequence numbers of
+    the frames that went out are strictly increasing (else the receiver must reject the later one as a replay)."""
+    import asyncio
+
+    from xknx.cemi import cemi_handler as CH
+    from xknx.exceptions import CommunicationError, ConfirmationError
+
+    hist = dict(hist)
+    steps = [dict(st_, payload=tuple(st_["payload"])) for st_ in hist["steps"]]
+    keys = [bytes(k) for k in hist["keys"]]
+    gas = [0x0A01, 0x0A02]
+    src = IndividualAddress(hist["src"])
+    faults = [st_["fault"] for st_ in steps]
+    lost_con = any(st_["fault"] == "ok" and not st_["confirm"] for st_ in steps)
+    ctx.case(
+        repr((hist["src"], hist["seq"], [sorted(st_.items()) for st_ in steps], keys)),
+        nontrivial=any(f != "ok" for f in faults) or lost_con,
+        cls=["send-history", f"send-history:len{len(steps)}"] + [f"send-history:fault:{f}" for f in set(faults)] + (["send-history:lost-confirmation"] if lost_con else []),
+    )
+    if faults.count("deliver-then-raise") and len(steps) == 2:
+        ctx.sample({"send_history": [(st_["fault"], st_["confirm"], st_["ga"]) for st_ in steps], "seq": hist["seq"]})
+    table = {GroupAddress(g): k for g, k in zip(gas, keys)}
+    sx = XKNX()
+    sx.current_address = src
+    sx.cemi_handler.data_secure = DataSecure(group_key_table=dict(table), individual_address_table={}, last_sequence_number_sending=hist["seq"])
+    rx = XKNX()
+    rec = ManagementRecorder()
+    rx.management = rec
+    rx.cemi_handler.data_secure = DataSecure(group_key_table=dict(table), individual_address_table={src: hist["seq"] - 1}, last_sequence_number_sending=1)
+    stub = FaultyInterface(sx, rx, rec)
+    sx.knxip_interface._interface = stub  # noqa: SLF001
+    saved = CH.REQUEST_TO_CONFIRMATION_TIMEOUT
+    CH.REQUEST_TO_CONFIRMATION_TIMEOUT = 0.002  # a lost L_Data.con must not cost 3 s of wall clock per case
+    last_wire_seq = None
+    prev = "start"
+    try:
+        for i, st_ in enumerate(steps):
+            payload = make_payload(st_["payload"])
+            tg = Telegram(destination_address=GroupAddress(gas[st_["ga"]]), payload=payload)
+            stub.plan = st_
+            n_before = len(stub.log)
+            try:
+                _loop().run_until_complete(asyncio.wait_for(sx.cemi_handler.send_telegram(tg), 30))
+                outcome = "returned"
+            except ConfirmationError:  # (a subclass of CommunicationError)
+                outcome = "ConfirmationError"
+            except CommunicationError:
+                outcome = "CommunicationError"
+            except Exception as e:  # noqa: BLE001
+                ctx.fail(f"C15:send-history:sender-exc:{exc_site(e)}", hist, f"step {i} ({st_['fault']}): send_telegram raised {type(e).__name__}: {e}")
+                return
+            expected_outcome = "returned" if st_["fault"] == "ok" and st_["confirm"] else ("ConfirmationError" if st_["fault"] == "ok" else "CommunicationError")
+            if outcome != expected_outcome:
+                ctx.fail(f"C15:send-history:unexpected-outcome:{st_['fault']}", hist, f"step {i}: send_telegram {outcome}, expected {expected_outcome}")
+            if len(stub.log) != n_before + 1:
+                ctx.fail("C15:send-history:frames-per-telegram", hist, f"step {i}: {len(stub.log) - n_before} frames handed to the interface")
+                return
+            e = stub.log[-1]
+            try:
+                d = L.decode_ldata(e["wire"])
+                L.classify_secure_bits(e["wire"])
+            except (L.RefError, AssertionError) as err:
+                ctx.fail("C15:send-history:wire-not-a-secure-frame", hist, f"step {i}: {e['wire'].hex()}: {err}")
+                return
+            wire_seq = int.from_bytes(d["apdu"][3:9], "big")
+            # only frames that really went out count: a number whose frame never left may be reused
+            if e["reached"] and last_wire_seq is not None and wire_seq <= last_wire_seq:
+                ctx.fail(
+                    f"C15:send-history:sequence-number-not-increasing:after-{prev}",
+                    hist,
+                    f"step {i}: frame went out with sequence number {wire_seq} although {last_wire_seq} had already gone out on the wire "
+                    f"(previous send: {prev}); history {[(x['fault'], x['confirm']) for x in steps]}",
+                )
+            if e["reached"]:
+                last_wire_seq = wire_seq if last_wire_seq is None else max(last_wire_seq, wire_seq)
+            if e["reached"]:
+                if e["rx_exc"] is not None:
+                    ctx.fail(f"C15:receiver-exc:{exc_site(e['rx_exc'])}", hist, f"step {i}: handle_raw_cemi raised {e['rx_exc']!r}")
+                elif len(e["delivered"]) != 1:
+                    ctx.fail(
+                        f"C15:send-history:not-delivered:after-{prev}" if not e["delivered"] else "C15:delivered-more-than-once",
+                        hist,
+                        f"step {i} ({st_['fault']}): intact secured frame {e['wire'].hex()} (sequence number {wire_seq}) reached the receiver, "
+                        f"{len(e['delivered'])} telegrams delivered; previous send: {prev}; receiver undecoded_data_secure="
+                        f"{rx.connection_manager.undecoded_data_secure}; history {[(x['fault'], x['confirm']) for x in steps]}",
+                    )
+                else:
+                    t = e["delivered"][0]
+                    if t.payload != payload or t.data_secure is not True or t.source_address != src or t.destination_address != GroupAddress(gas[st_["ga"]]):
+                        ctx.fail("C15:send-history:telegram-differs", hist, f"step {i}: sent {payload} received {t} data_secure={t.data_secure}")
+            prev = st_["fault"] if st_["fault"] != "ok" or st_["confirm"] else "ok-without-confirmation"
+    finally:
+        CH.REQUEST_TO_CONFIRMATION_TIMEOUT = saved
+
+
+def send_histories():
+    from hypothesis import strategies as st
+
+    step = st.fixed_dictionaries(
+        {
+            "ga": st.integers(0, 1),
+            "payload": st.one_of(
+                st.tuples(st.just("gvw"), st.binary(max_size=6)),
+                st.tuples(st.just("gvr"), st.binary(max_size=3)),
+                st.tuples(st.just("gvw6"), st.integers(0, 63).map(lambda v: bytes([v]))),
+            ),
+            "fault": st.sampled_from(FAULTS + ("ok",)),
+            "confirm": st.sampled_from((True, True, True, False)),
+        }
+    )
+    return st.fixed_dictionaries(
+        {
+            "src": st.integers(1, 0xFFFF),
+            "seq": st.one_of(st.sampled_from((1, 2, 1 << 32, S.SEQ_MAX - 4)), st.integers(1, S.SEQ_MAX - 4)),
+            "keys": st.lists(st.binary(min_size=16, max_size=16), min_size=2, max_size=2),
+            "steps": st.lists(step, min_size=2, max_size=4),
+        }
+    )
+
+
+def enumerate_send_histories(ctx) -> None:
+    """Every fault sequence of length 2 and 3 (confirmations arriving), and each with one lost confirmation."""
+    import itertools
+
+    n = 0
+    for length in (2, 3):
+        for faults in itertools.product(FAULTS, repeat=length):
+            for lost in (None, 0):
+                steps = [{"ga": (i + n) % 2, "payload": ("gvw", bytes([i + 1, n & 0xFF])), "fault": f, "confirm": lost != i} for i, f in enumerate(faults)]
+                oracle_send_history(ctx, {"src": 0x1105, "seq": 1000 + 16 * n, "keys": [bytes(range(16)), bytes(range(16, 32))], "steps": steps})
+                n += 1
+
+
 def specs():
     from hypothesis import strategies as st
 
@@ -346,6 +525,7 @@ def specs():
 
 def _shard(ctx, n: int) -> None:
     hyp_search(ctx, specs(), oracle, n)
+    hyp_search(ctx, send_histories(), oracle_send_history, max(20, n // 3), seed_salt=9)
 
 
 def enumerate_lengths(ctx) -> None:
@@ -388,12 +568,15 @@ def literal_frames(ctx) -> None:
 
 def run(ctx) -> None:
     literal_frames(ctx)
+    enumerate_send_histories(ctx)
     enumerate_lengths(ctx)
-    parallel(ctx, _shard, [(ctx.n(400, 8000),)] * ctx.n(8, 16))
+    parallel(ctx, _shard, [(ctx.n(300, 8000),)] * ctx.n(8, 16))
 
 
 def replay(ctx, case) -> None:
     if "literal" in case:
         literal_frames(ctx)
+    elif "steps" in case:
+        oracle_send_history(ctx, case)
     else:
         oracle(ctx, case)
